@@ -27,6 +27,13 @@ Bodies(n) == {Zeros(n), [i \in 1..n |-> 255], [i \in 1..n |-> i], [i \in 1..n |-
 LsGrid(lazy) == {[ep |-> "LinkState.unpack", b |-> Tlv22(t, bd)] : t \in LsAttrTypes \cup {0, 1, 1023, 65535}, bd \in UNION {Bodies(n) : n \in 0..16}}
           \cup {[ep |-> "LinkState.unpack", b |-> U16(t) \o U16(n + 3) \o Zeros(n)] : t \in LsAttrTypes, n \in {0, 1, 7}}
 SidGrid(lazy) == {[ep |-> "BGPPrefixSID.unpack", b |-> Tlv12(t, bd)] : t \in PrefixSidTypes \cup {0, 2, 255}, bd \in UNION {Bodies(n) : n \in 0..16}}
+\* self-similar nesting: a link-state TLV whose value is a fixed part followed by n sibling TLVs of the SAME type (each with
+\* the same fixed part): a decoder that lets an inner TLV see its later siblings does work exponential in n
+Rep(n, x) == Flatten([i \in 1..n |-> x])
+NestGrid(lazy) == {[ep |-> "LinkState.unpack", b |-> Tlv22(t, Zeros(f) \o Rep(n, Tlv22(t, Zeros(f))))] :
+                     t \in LsAttrTypes, f \in {0, 4, 8, 16, 20, 22, 24, 32}, n \in {10, 18}}
+                  \cup {[ep |-> "LinkState.unpack", b |-> Tlv22(t, Zeros(f) \o Tlv22(t, Zeros(f) \o Rep(8, Tlv22(t, Zeros(f) \o Rep(8, Tlv22(t, Zeros(f)))))))] :
+                     t \in LsAttrTypes, f \in {0, 8, 22}}
 \* OPEN messages (body after the header) carrying one capability of every code the decoder interprets (and unknown ones)
 \* with every value length 0..16 x body pattern, alone and after a valid multiprotocol capability, one parameter each or
 \* packed together; plus capability / parameter length fields that lie
@@ -61,7 +68,7 @@ ShortInputs(lazy) == {[ep |-> "*", b |-> s] : s \in Strings(MAXSHORT)}
 
 VARIABLE vec
 Vecs == CASE FAMILY = "lsgrid" -> LsGrid(0) [] FAMILY = "sidgrid" -> SidGrid(0) [] FAMILY = "short" -> ShortInputs(0)
-          [] FAMILY = "capgrid" -> CapGrid(0) [] FAMILY = "attrgrid" -> AttrGrid(0) [] FAMILY = "mpgrid" -> MpGrid(0)
+          [] FAMILY = "nestgrid" -> NestGrid(0) [] FAMILY = "capgrid" -> CapGrid(0) [] FAMILY = "attrgrid" -> AttrGrid(0) [] FAMILY = "mpgrid" -> MpGrid(0)
 Init == vec \in Vecs
 Next == FALSE /\ UNCHANGED vec
 Emit == PrintT("@W " \o ToJson(vec))
